@@ -9,7 +9,7 @@ class Prop(PropBase):
     LEAN_MODULES = ["Tpp.Props.C02"]
     REQUIRED = ["Tpp.Props.C02." + n for n in ("C02_placement_step", "C02_placement", "C02_after_last_column")] + \
                ["Tpp.agree_run", "Tpp.feed_moveCursor", "Tpp.rawElements_positions"]
-    RULE = ("exhaustive: all (from,to) cursor pairs on a 4x3 grid (quick; plus 5x5 thorough) after each of {unknown, known, "
+    RULE = ("exhaustive short histories: EVERY sequence of up to 3 (thorough: 4) operations over an 18-operation alphabet on a 3x2 terminal (termgen.short_histories); exhaustive: all (from,to) cursor pairs on a 4x3 grid (quick; plus 5x5 thorough) after each of {unknown, known, "
             "wrote-last-column, restored, resized-with-saved-position, written}, each followed by a two-glyph string; "
             "random histories of move/write/save/restore/erase/resize with positions inside the declared size, sizes "
             "1x1..40x12, strings that end exactly in / run past the last column. The oracle places the real bytes on "
@@ -32,4 +32,7 @@ class Prop(PropBase):
             line = tg.history(rng, nops, sized=True, ops_weights=CURSOR_WEIGHTS, blink=True)
             cs.append(Case(line, tag="history", nontrivial=(" mv " in line and (" we " in line or " ws " in line)),
                            cfgs=tg.configs(rng, 3)))
+        shc = ["%d %d %d %d 7 4" % (wv, e, r, z) for wv in range(3) for e in range(3) for r in range(6) for z in range(4)]
+        for line, cf in tg.short_histories(3 if tier == "quick" else 4, shc):
+            cs.append(Case(line, sweep="short-histories", cfgs=cf))
         return cs
